@@ -19,7 +19,7 @@ use crate::ops::{
     Reciprocal, ReduceMean, RepeatInterleave, Shape, Silu, Softmax, Swish, SymbolInfo, Transpose,
 };
 use crate::optimize::pattern_matcher::{Match, Pattern, broadcasts_as_scalar};
-use crate::value::ValueType;
+use crate::value::{DataType, ValueType};
 
 #[derive(Debug)]
 pub struct FusedOp {
@@ -1000,6 +1000,17 @@ impl FusionVisitor for MatMulScaleFusion {
     }
 }
 
+/// Check that the `Cast` operator `cast_id` converts its input to float.
+fn check_cast_to_float(graph: &Graph, cast_id: NodeId) -> Result<(), FusionError> {
+    let cast = graph
+        .get_operator::<Cast>(cast_id)
+        .ok_or(FusionError::CheckFailed("expected Cast operator"))?;
+    if cast.to != DataType::Float {
+        return Err(FusionError::CheckFailed("cast is not to float"));
+    }
+    Ok(())
+}
+
 pub struct MatMulIntegerToFloatFusion {}
 
 impl PatternFusion for MatMulIntegerToFloatFusion {
@@ -1029,6 +1040,9 @@ impl PatternFusion for MatMulIntegerToFloatFusion {
     }
 
     fn maybe_fuse(&self, pat_match: &Match, graph: &Graph) -> Result<Self::Operator, FusionError> {
+        // The fused operator produces a float output.
+        check_cast_to_float(graph, pat_match.node_id("cast").unwrap())?;
+
         let scale = pat_match.node_id("scale").unwrap();
         let scale_shape = graph
             .get_node(scale)
@@ -1065,7 +1079,9 @@ impl PatternFusion for ConvIntegerToFloatFusion {
         Pattern::unary_op(
             "Cast",
             Pattern::operator("ConvInteger", [x, w, x_zero, w_zero]).with_name("conv"),
-        ) * scale
+        )
+        .with_name("cast")
+            * scale
     }
 
     fn inputs(&self) -> &[&str] {
@@ -1073,6 +1089,9 @@ impl PatternFusion for ConvIntegerToFloatFusion {
     }
 
     fn maybe_fuse(&self, pat_match: &Match, graph: &Graph) -> Result<Self::Operator, FusionError> {
+        // The fused operator produces a float output.
+        check_cast_to_float(graph, pat_match.node_id("cast").unwrap())?;
+
         let scale = pat_match.node_id("scale").unwrap();
         let scale_shape = graph
             .get_node(scale)
